@@ -7,7 +7,10 @@ package c20lib
 import (
 	"bytes"
 	"encoding/json"
+	"errors"
 	"fmt"
+	"io"
+	"math"
 	"reflect"
 	"sort"
 	"strconv"
@@ -42,6 +45,139 @@ type Case struct {
 	More   []any    `json:"more,omitempty"` // origin layers: the layers after the second one
 	Seqs   [][]Call `json:"seqs"`
 	Repeat int      `json:"repeat,omitempty"`
+	Pre    []Fail   `json:"pre,omitempty"` // serialisations of OTHER documents that fail part-way, performed before the readers start (every round)
+	Pad    int      `json:"pad,omitempty"` // > 0: D1 additionally holds a string leaf of this many bytes (see Padded)
+}
+
+// Padded returns d with an additional string leaf of pad bytes under the key "zz-pad" (multi-byte characters
+// every few bytes, so that some character lies across any given offset of a serialised form) - documents whose
+// texts are just under / over 512 B, 4 KiB, 64 KiB, 1 MiB without carrying megabytes in the case file.
+func Padded(d any, pad int) any {
+	if pad <= 0 {
+		return d
+	}
+	x, ok := d.(map[string]any)
+	if !ok {
+		return d
+	}
+	c, ok := x["m"].(map[string]any)
+	if !ok {
+		return d
+	}
+	m := make(map[string]any, len(c)+1)
+	for k, v := range c {
+		m[k] = v
+	}
+	const unit = "abcé日xyz" // 11 bytes
+	n := pad / len(unit)
+	s := strings.Repeat(unit, n) + strings.Repeat("p", pad-n*len(unit))
+	m["zz-pad"] = map[string]any{"t": "string", "v": s}
+	return map[string]any{"m": m}
+}
+
+// Fail is one call of the serialisation API that FAILS part-way, on a document of its own (not the one the
+// readers read).  What a failed call leaves behind - in the package, in pooled or reused buffers - must not be
+// observable by the calls that follow it.
+type Fail struct {
+	D       any    `json:"d"`                 // the other document (wire form)
+	Enc     string `json:"enc"`               // yaml | json
+	How     string `json:"how"`               // NaN | +Inf | -Inf: such a float leaf is put at P (JSON cannot represent it) | marshaler: a leaf whose own MarshalJSON / MarshalYAML reports an error | writer: the io.Writer fails after N bytes
+	P       string `json:"p,omitempty"`       // where the leaf is put
+	N       int    `json:"n,omitempty"`       // writer: bytes accepted before the failure
+	Loaded  bool   `json:"loaded,omitempty"`  // NaN / Inf: the document is written as YAML (.nan / .inf) and loaded with FromReader first
+	Overlay bool   `json:"overlay,omitempty"` // the document is serialised as the single layer of an OverlayDocument
+}
+
+// Unencodable is a leaf value whose own marshalling methods report an error (an encoder failure that both default
+// encoders return as an error, after whatever they had already emitted).
+type Unencodable struct{}
+
+var errUnencodable = errors.New("this value refuses to be encoded")
+
+func (Unencodable) MarshalJSON() ([]byte, error)      { return nil, errUnencodable }
+func (Unencodable) MarshalYAML() (interface{}, error) { return nil, errUnencodable }
+
+type failingWriter struct {
+	left int
+}
+
+func (w *failingWriter) Write(p []byte) (int, error) {
+	if len(p) > w.left {
+		n := w.left
+		w.left = 0
+		return n, io.ErrClosedPipe
+	}
+	w.left -= len(p)
+	return len(p), nil
+}
+
+// Build constructs the document of the failing call; the second result is what gets serialised.
+func (f Fail) Build() (doc any, ser func(w io.Writer) error) {
+	cb := container(f.D)
+	p := f.P
+	if p == "" {
+		p = "zz"
+	}
+	switch f.How {
+	case "NaN":
+		cb.AddValueAt(p, dom.LeafNode(math.NaN()))
+	case "+Inf":
+		cb.AddValueAt(p, dom.LeafNode(math.Inf(1)))
+	case "-Inf":
+		cb.AddValueAt(p, dom.LeafNode(math.Inf(-1)))
+	case "marshaler":
+		cb.AddValueAt(p, dom.LeafNode(Unencodable{}))
+	}
+	if f.Loaded && f.How != "marshaler" {
+		if b, err := yaml.Marshal(cb.AsMap()); err == nil {
+			if l, err := dom.Builder().FromReader(bytes.NewReader(b), dom.DefaultYamlDecoder); err == nil {
+				cb = l
+			}
+		}
+	}
+	enc := dom.DefaultYamlEncoder
+	if f.Enc == "json" {
+		enc = dom.DefaultJsonEncoder
+	}
+	if f.Overlay {
+		o := dom.NewOverlayDocument()
+		o.Add("only", cb)
+		return o, func(w io.Writer) error { return o.Serialize(w, dom.DefaultNodeEncoderFn, enc) }
+	}
+	return cb, func(w io.Writer) error { return cb.Serialize(w, dom.DefaultNodeEncoderFn, enc) }
+}
+
+// Run performs the failing call; reports whether it returned an error (a panic counts as one).
+func (f Fail) Run() (failed bool) {
+	defer func() {
+		if r := recover(); r != nil {
+			failed = true
+		}
+	}()
+	_, ser := f.Build()
+	return f.run(ser)
+}
+
+func (f Fail) run(ser func(w io.Writer) error) bool {
+	if f.How == "writer" {
+		n := f.N
+		if n < 0 {
+			n = 0
+		}
+		return ser(&failingWriter{left: n}) != nil
+	}
+	var buf bytes.Buffer
+	return ser(&buf) != nil
+}
+
+// RunOn is Run on an already built document (so that the caller can fingerprint it around the call).
+func (f Fail) RunOn(ser func(w io.Writer) error) (failed bool) {
+	defer func() {
+		if r := recover(); r != nil {
+			failed = true
+		}
+	}()
+	return f.run(ser)
 }
 
 type Subject struct {
@@ -327,6 +463,14 @@ func (s *Subject) Exec(c Call) (obs string) {
 		o := WireNode(c.V)
 		return fmt.Sprint(n.SameAs(o), o.SameAs(n))
 	case "ContainerBuilder.Merge":
+		if c.V == nil {
+			// the document merged with ITSELF: receiver and `other` are one object
+			cb, ok := n.(dom.ContainerBuilder)
+			if !ok {
+				return "not-applicable"
+			}
+			return "self|" + NodeText(s.keep(c, cb.Merge(cb, MergeOpts(c.Opt)...)))
+		}
 		o, ok := WireNode(c.V).(dom.ContainerBuilder)
 		if !ok || !n.IsContainer() {
 			return "not-applicable"
